@@ -86,6 +86,13 @@ HARNESSES = [
       fns=["decode_huffman_code", "HuffmanTable::fast_lookup", "HuffmanTable::tree_lookup", "read_byte", "read_u16_le", "end_of_input"],
       strength="B(one well-formed table instance with 1..12-bit codes; <= 40 buffered bits + <= 3 input bytes; complete over every bit stream, split and flag word)",
       note="the table instance is what init_tree builds for lengths 1..11,12,12 (derived by hand from init_tree's algorithm; init_tree itself is behind an assumed contract)"),
+    H("k_stored_block_end_to_end_raw", "K-stored-e2e", ["C01", "C03", "C06", "C08", "C13"], cost=70, timeout=1200,
+      fns=["decompress", "decompress_with_limit (whole automaton on a final stored block)"],
+      strength="B(4 concrete stream shapes: final stored block of 0/1/2 bytes, 0-2 trailing bytes, flat/ring, padding 00000/11111; data and trailing bytes symbolic)"),
+    H("k_stored_block_end_to_end_zlib", "K-stored-e2e", ["C03", "C04", "C06", "C08", "C09", "C13"], cost=70, timeout=1200,
+      fns=["decompress", "decompress_with_limit (whole automaton: zlib header, stored block, trailer, checksum verdict)"],
+      strength="B(4 concrete stream shapes: zlib header 78 9C + final stored block of 0/1/2 bytes + trailer + 0-2 trailing bytes; data, trailer, trailing bytes symbolic)",
+      note="update_adler32 replaced by a contract model (identity on empty data, otherwise a mix of the bytes)"),
     H("k_apply_match_small_buffer", "K-applymatch", ["C03", "C05", "C07", "C08"], fns=["apply_match", "transfer"], cost=70, timeout=2400, tier="thorough",
       strength="B(buffer <= 16 bytes; complete in contents, positions, distance, length, flat/ring mode)"),
     H("k_apply_match_tiny_buffer", "K-applymatch", ["C03", "C05", "C07", "C08"], fns=["apply_match", "transfer"], cost=70, timeout=900,
